@@ -157,6 +157,8 @@ def dispatch (op : String) (args : List Str) : String :=
   | "thm04", [s] => opThm04 s
   | "thm08", [s] => opThm08 s
   | "thm15", [s] => opThm15 s
+  -- `deeptext` / `deepcdata`: the same node kinds at the deepest place the parser allows (the model of the data does not care)
+  | "chardata", ('d' :: 'e' :: 'e' :: 'p' :: k) :: c :: ops => chardata (String.ofList k) c ops
   | "chardata", k :: c :: ops => chardata (String.ofList k) c ops
   | "dom", t :: _ :: ops => opDom t ops
   | "query", t :: b :: es => opQuery "rz" t b es
